@@ -330,10 +330,7 @@ def _run_potable(ini, scratch, extra, args_first=False):
     out_path = os.path.join(scratch, "table.out")
     with open(in_path, "w") as f:
         f.write(ini)
-    if args_first and extra:
-        argv = ["potable"] + extra + ["--", in_path, out_path] if False else ["potable", in_path, out_path] + extra
-    else:
-        argv = ["potable", in_path, out_path] + extra
+    argv = ["potable", in_path, out_path] + extra
     old = (sys.argv, sys.stdout, sys.stderr)
     sys.argv = argv
     sys.stdout = io.StringIO()
@@ -530,7 +527,7 @@ def _probes(sc, ref, res, bump):
         if op["op"] == "cli":
             bump("probe:cli-" + op["mode"])
             if e.get("exit") != 0 or e.get("raised"):
-                bump("cli-both-fail" if True else "")
+                bump("cli-hand-deleted-file-is-rejected")
         if op["op"] in ("view", "cli"):
             if not op["species"]:
                 bump("probe:empty-%s-set" % op["mode"])
